@@ -208,6 +208,29 @@ def include_stack_balanced(impl):
     return depth == 0
 
 
+def include_restores_source_id(impl):
+    """c_items, `include` arm: the report builder's current source id is saved before the nested
+    add_source and restored right after it, on the same straight-line path as the include stack's
+    push and pop (no way out in between), so that the diagnostics of the rest of the including
+    source are attributed to it whether or not the included file had errors."""
+    body = strip_comments(fn_body(impl, "c_items"))
+    push = re.search(r"self\s*\.\s*include_stack\s*\.\s*push\s*\(", body)
+    pop = re.search(r"self\s*\.\s*include_stack\s*\.\s*pop\s*\(\s*\)", body)
+    if not push or not pop or pop.start() < push.start():
+        return False
+    save = [m.start() for m in re.finditer(r"let\s+source_id\s*=\s*self\s*\.\s*report_builder\s*\.\s*get_current_source_id\s*\(", body)]
+    restore = [m.start() for m in re.finditer(r"self\s*\.\s*report_builder\s*\.\s*set_current_source_id\s*\(\s*source_id\s*\)", body)]
+    nested = [m.start() for m in re.finditer(r"self\s*\.\s*add_source\s*\(", body)]
+    if len(save) != 1 or len(restore) != 1 or len(nested) != 1:
+        return False
+    # add_source itself must not touch the saved id on some of its exits only
+    adds = strip_comments(fn_body(impl, "add_source"))
+    if "set_current_source_id" in adds:
+        return False
+    return save[0] < nested[0] < restore[0] and push.start() < nested[0] and restore[0] < pop.start() + 200 and \
+        not re.search(r"\b(continue|break|return)\b|\?\s*[;)\n.,]", re.sub(r'"(?:[^"\\]|\\.)*"', '""', body[nested[0]:max(restore[0], pop.start())]))
+
+
 def main():
     text = src("lib/src/compiler/mod.rs")
     fields = struct_fields(text, "Compiler")
@@ -328,6 +351,10 @@ def main():
     L.append("(* c_items, `include` arm: between `self.include_stack.push(..)` and `self.include_stack.pop()` there is")
     L.append("   no way out of the arm (continue / break / return / ?), and these are the only push and pop *)")
     L.append(f"Definition include_stack_balanced : bool := {str(include_stack_balanced(impl)).lower()}.")
+    L.append("")
+    L.append("(* c_items, `include` arm: the current source id of the report builder is saved before the nested")
+    L.append("   add_source and restored after it on every path (and add_source does not set it itself) *)")
+    L.append(f"Definition include_restores_source_id : bool := {str(include_restores_source_id(impl)).lower()}.")
     L.append("")
     write_if_changed("SnapshotGen.v", "\n".join(L) + "\n")
 
